@@ -61,7 +61,14 @@ def main():
                 'checks': res['checks'],
                 'detected_by_owning_check': res['checks'][prop]['exit'] == 1,
                 'also_detected_by': [p for p in others if res['checks'][p]['exit'] == 1]}
-        json.dump(meta, open(os.path.join(d, 'meta.json'), 'w'), indent=1)
+        mp = os.path.join(d, 'meta.json')
+        if os.path.exists(mp):
+            oldm = json.load(open(mp))
+            for k in ('caught_after_strengthening',):
+                if k in oldm:
+                    meta[k] = oldm[k]
+            meta['also_detected_by'] = sorted(set(meta['also_detected_by']) | set(oldm.get('also_detected_by', [])))
+        json.dump(meta, open(mp, 'w'), indent=1)
     return 0
 
 sys.exit(main())
